@@ -2,14 +2,28 @@
   C04 — numbers survive conversion between text and binary exactly.
 
   Model : JV.Model.Number (dec_to_integer, from_integer, the parser's integer classification),
-          JV.Model.BigInt (basic_bigint's += / -= / compare limb loops with 64-bit wrap-around).
-  Proved: integer parse/print exactness incl. both 64-bit boundaries; exactness of the bigint
-          addition and subtraction loops. NOT proved (validated per case against exact Python
-          arithmetic in the correspondence run): Grisu3 / snprintf digit generation, strtod,
-          bigint multiplication, division, shifts and radix conversion.
+          JV.Model.BigInt (basic_bigint's limb loops with 64-bit wrap-around: += / -= / compare / reduce,
+          DDproduct, *= word, *= bigint (1×1, word×many, schoolbook columns), <<=, >>=, += word, the string
+          constructor (detail::to_bigint), from_bytes_be, divide's num<denom / 1×1 / half-word exits,
+          write_bytes_be, write_string's 19-digit chunk loop). Every one of these is run against the real member
+          function word for word in the correspondence stream `bigint-limbs` (operands and results as sign + hex words).
+  Proved: integer parse/print exactness incl. both 64-bit boundaries; exactness of bigint addition, subtraction,
+          reduce, compare, also with signs (on reduced operands; results reduced); DDproduct = the 128-bit product (high word ≤ 2^64-2); *= word and *= bigint exact (all exits);
+          <<= is ·2^k, >>= is ⌊|·|/2^k⌋; decimal text → bigint exact and total on digit strings, none otherwise;
+          from_bytes_be / write_bytes_be are the big-endian base-256 value, and round-trip; divide by a one-word
+          denominator exact on the modelled exits; write_string ∘ string constructor = identity on the integer
+          (unconditional for values of one word; for longer values conditional on divide(10^19) being exact).
+  NOT proved (validated per case against exact Python arithmetic in the correspondence run): Grisu3 / snprintf
+          digit generation, strtod, the general (Knuth) exit of bigint divide (normalize / DDquotient /
+          subtractmul / unnormalize) and hence multi-word write_string's divisions, hex text.
 -/
 import JV.Proofs.Number
 import JV.Proofs.BigInt
+import JV.Proofs.BigIntMul
+import JV.Proofs.BigIntShift
+import JV.Proofs.BigIntRadix
+import JV.Proofs.BigIntPrint
+import JV.Proofs.BigIntSigned
 namespace JV.Props.C04
 open JV Model
 
@@ -74,10 +88,134 @@ theorem bigint_sub_exact (x y : List Nat) (hx : BigInt.Words x) (hy : BigInt.Wor
 theorem bigint_reduce_exact (xs : List Nat) : BigInt.val (BigInt.stripHigh xs) = BigInt.val xs :=
   BigInt.stripHigh_val xs
 
+/-- `compare` (by length, then from the top word down; signs first) orders reduced values as integers -/
+theorem bigint_compare_exact (a b : BigInt.Big) (ha : BigInt.Normal a.mag) (hb : BigInt.Normal b.mag) :
+    (BigInt.compare a b > 0 ↔ BigInt.toInt a > BigInt.toInt b) ∧ (BigInt.compare a b < 0 ↔ BigInt.toInt a < BigInt.toInt b) :=
+  BigInt.compare_toInt a b ha hb
+
+/-- `operator+=` with signs (equal signs: add magnitudes; else subtract the smaller magnitude from the larger,
+    swapping through `-(y - *this)`) is integer addition, and the result is reduced -/
+theorem bigint_add_signed (a b : BigInt.Big) (ha : BigInt.Normal a.mag) (hb : BigInt.Normal b.mag) :
+    BigInt.toInt (BigInt.add 4 a b) = BigInt.toInt a + BigInt.toInt b ∧ BigInt.Normal (BigInt.add 4 a b).mag :=
+  BigInt.add_toInt a b ha hb
+
+/-- `operator-=` with signs is integer subtraction, and the result is reduced -/
+theorem bigint_sub_signed (a b : BigInt.Big) (ha : BigInt.Normal a.mag) (hb : BigInt.Normal b.mag) :
+    BigInt.toInt (BigInt.sub 4 a b) = BigInt.toInt a - BigInt.toInt b ∧ BigInt.Normal (BigInt.sub 4 a b).mag :=
+  BigInt.sub_toInt a b ha hb
+
+/-- `DDproduct` (32-bit half-word products with two carry tests) is the exact 128-bit product, and its
+    high word never exceeds 2^64 - 2 — the fact the multiplication loops silently rely on -/
+theorem bigint_ddproduct_exact (a b : Nat) (ha : a < BigInt.B) (hb : b < BigInt.B) :
+    (BigInt.ddproduct a b).2 + BigInt.B * (BigInt.ddproduct a b).1 = a * b ∧
+      (BigInt.ddproduct a b).2 < BigInt.B ∧ (BigInt.ddproduct a b).1 + 2 ≤ BigInt.B :=
+  BigInt.ddproduct_spec a b ha hb
+
+/-- `operator*=(word)`: the carry loop over DDproduct multiplies exactly -/
+theorem bigint_mulWord_exact (x : List Nat) (w : Nat) (hx : BigInt.Words x) (hw : w < BigInt.B) :
+    BigInt.val (BigInt.mulWord x w) = BigInt.val x * w :=
+  BigInt.mulWord_val x w hx hw
+
+/-- `operator*=(basic_bigint)`: every exit (1×1 with overflow test, word × many, schoolbook columns with the
+    three-word accumulator) gives the exact product. `x.length < 2^64`: the column carry is a 64-bit counter. -/
+theorem bigint_mul_exact (x y : List Nat) (hx : BigInt.Words x) (hy : BigInt.Words y) (hlen : x.length < BigInt.B) :
+    BigInt.val (BigInt.mulMag x y) = BigInt.val x * BigInt.val y :=
+  BigInt.mulMag_val x y hx hy hlen
+
+/-- … with signs: the product of the integers -/
+theorem bigint_mul_signed (a b : BigInt.Big) (ha : BigInt.Words a.mag) (hb : BigInt.Words b.mag) (hlen : a.mag.length < BigInt.B) :
+    BigInt.toInt (BigInt.mul a b) = BigInt.toInt a * BigInt.toInt b :=
+  BigInt.mul_toInt a b ha hb hlen
+
+/-- `operator<<=`: whole-word move, then per-word `(w << k) | (prev >> (64-k))`, is multiplication by 2^k -/
+theorem bigint_shl_exact (x : List Nat) (k : Nat) (hx : BigInt.Words x) :
+    BigInt.val (BigInt.shlRaw x k) = BigInt.val x * 2 ^ k :=
+  BigInt.shlRaw_val x k hx
+
+theorem bigint_shl_signed (a : BigInt.Big) (k : Nat) (ha : BigInt.Words a.mag) :
+    BigInt.toInt (BigInt.shl a k) = BigInt.toInt a * 2 ^ k :=
+  BigInt.shl_toInt a k ha
+
+/-- `operator>>=` is floor division of the magnitude by 2^k (a negative value is truncated towards zero, not
+    floored), whichever exit is taken; it never turns the sign flag on -/
+theorem bigint_shr_exact (a : BigInt.Big) (k : Nat) (ha : BigInt.Words a.mag) :
+    BigInt.val (BigInt.shr a k).mag = BigInt.val a.mag / 2 ^ k ∧ ((BigInt.shr a k).neg = true → a.neg = true) :=
+  BigInt.shr_val a k ha
+
+/-- the string constructor (`detail::to_bigint`: `v *= 10u; v += digit` per character): every non-empty digit
+    string becomes exactly its decimal value; the sign flag is set only on request -/
+theorem bigint_parse_exact (neg : Bool) (s : Bytes) (hne : s ≠ []) (hd : AllDigits s) :
+    ∃ b, BigInt.ofDecimalDigits neg s = some b ∧ BigInt.val b.mag = decVal s ∧ BigInt.Words b.mag ∧ (b.neg = true → neg = true) ∧
+      (b.neg = neg ∨ decVal s = 0) :=
+  BigInt.ofDecimalDigits_ok neg s hne hd
+
+/-- … and anything else is rejected (no partial parse, no skipped character) -/
+theorem bigint_parse_rejects (neg : Bool) (s : Bytes) (h : ¬ AllDigits s) : BigInt.ofDecimalDigits neg s = none :=
+  BigInt.ofDecimalDigits_bad neg s h
+
+/-- `from_bytes_be` (`v *= 256; v += byte`): the magnitude is the big-endian value of the bytes -/
+theorem bigint_from_bytes_exact (sg : Int) (s : List Nat) (h : ∀ b ∈ s, b < 256) :
+    BigInt.val (BigInt.fromBytesBE sg s).mag = BigInt.beVal s ∧ BigInt.Words (BigInt.fromBytesBE sg s).mag ∧
+      (BigInt.fromBytesBE sg s).neg = decide (sg < 0) :=
+  BigInt.fromBytesBE_val sg s h
+
+/-- `divide` by a one-word denominator on its `num < denom`, 1×1 and half-word-loop exits (the Knuth exit is
+    not modelled: `divWord = none` there): `num = quot * d + rem`, and `rem < d` on the dividing exits -/
+theorem bigint_divWord_exact (x : List Nat) (d : Nat) (hx : BigInt.Words x) (hd : 0 < d) (q r : List Nat)
+    (h : BigInt.divWord x d = some (q, r)) :
+    BigInt.val x = BigInt.val q * d + BigInt.val r ∧ BigInt.Words q ∧
+      (¬ BigInt.cmpMag x [d] < 0 → BigInt.val r < d ∧ r.headD 0 = BigInt.val r) :=
+  BigInt.divWord_spec x d hx hd q r h
+
+/-- `write_bytes_be` (repeated `divide` by 256): the bytes are the big-endian base-256 digits of the magnitude -/
+theorem bigint_to_bytes_exact (a : BigInt.Big) (ha : BigInt.Words a.mag) :
+    BigInt.beVal (BigInt.toBytesBE a).2 = BigInt.val a.mag ∧ ∀ b ∈ (BigInt.toBytesBE a).2, b < 256 :=
+  BigInt.toBytesBE_val a ha
+
+/-- bytes written by `write_bytes_be` and read back by `from_bytes_be` give the same integer -/
+theorem bigint_bytes_roundtrip (a : BigInt.Big) (ha : BigInt.Words a.mag) :
+    BigInt.toInt (BigInt.fromBytesBE (BigInt.toBytesBE a).1 (BigInt.toBytesBE a).2) = BigInt.toInt a :=
+  BigInt.bytes_roundtrip a ha
+
+/-- `write_string` (19-digit chunks, zero-padded except the last, sign, reverse) followed by the string
+    constructor gives the same integer back — for every bigint, PROVIDED the `divide(10^19)` it calls is exact
+    on the values it meets (`Div19Exact P div19`, `P` any property of word lists kept by the quotient). The
+    general (Knuth) `divide` exit is not modelled: for it this premise is an observation of the correspondence run. -/
+theorem bigint_print_parse (P : List Nat → Prop) (div19 : List Nat → List Nat × Nat) (hdiv : BigInt.Div19Exact P div19)
+    (a : BigInt.Big) (hP : P a.mag) (ha : BigInt.Words a.mag) :
+    ∃ b, BigInt.ofDecimal (BigInt.toDecimal div19 a) = some b ∧ BigInt.toInt b = BigInt.toInt a :=
+  BigInt.print_parse P div19 hdiv a hP ha
+
+/-- … and unconditionally for every value of at most one word, where `divide(10^19)` leaves through its
+    modelled `num < denom` / 1×1 exits -/
+theorem bigint_print_parse_word (a : BigInt.Big) (hl : a.mag.length ≤ 1) (ha : BigInt.Words a.mag) :
+    ∃ b, BigInt.ofDecimal (BigInt.toDecimal BigInt.div19Word a) = some b ∧ BigInt.toInt b = BigInt.toInt a :=
+  BigInt.print_parse_word a hl ha
+
 /-! ### non-vacuity -/
 example : decToU64 [49, 56, 52, 52, 54, 55, 52, 52, 48, 55, 51, 55, 48, 57, 53, 53, 49, 54, 49, 53] = .ok (2 ^ 64 - 1) := by rfl
 example : decToU64 [49, 56, 52, 52, 54, 55, 52, 52, 48, 55, 51, 55, 48, 57, 53, 53, 49, 54, 49, 54] = .error .range := by rfl
 example : decToI64 (fromInteger (-(2 ^ 63))) = .ok (-(2 ^ 63)) := by rfl
 example : BigInt.subLoop [0, 0, 1] [1, 1] 0 = [BigInt.B - 1, BigInt.B - 2, 0] := by decide
+
+example : BigInt.ddproduct (BigInt.B - 1) (BigInt.B - 1) = (BigInt.B - 2, 1) := by decide
+example : BigInt.mulWord [BigInt.B - 1, BigInt.B - 1] (BigInt.B - 1) = [1, BigInt.B - 1, BigInt.B - 2] := by decide
+example : BigInt.mulMag [BigInt.B - 1, BigInt.B - 1] [BigInt.B - 1, BigInt.B - 1] = [1, 0, BigInt.B - 2, BigInt.B - 1] := by decide
+example : BigInt.shlRaw [BigInt.B - 1, 1] 65 = [0, BigInt.B - 2, 3, 0] := by decide
+example : BigInt.shr { neg := true, mag := [BigInt.B - 1, 1] } 1 = { neg := true, mag := [BigInt.B - 1] } := by decide
+-- every word shifted out: size 0 but the sign flag survives (no `reduce()` on that exit)
+example : BigInt.shr { neg := true, mag := [5] } 64 = { neg := true, mag := [] } := by decide
+-- "18446744073709551616" = 2^64
+example : BigInt.ofDecimal [49, 56, 52, 52, 54, 55, 52, 52, 48, 55, 51, 55, 48, 57, 53, 53, 49, 54, 49, 54] = some { neg := false, mag := [0, 1] } := by decide
+example : BigInt.ofDecimal [45, 48, 48] = some { neg := false, mag := [] } := by decide
+example : BigInt.ofDecimal [45] = none := by decide
+example : BigInt.toBytesBE { neg := true, mag := [0, 1] } = (-1, [1, 0, 0, 0, 0, 0, 0, 0, 0]) := by decide
+example : BigInt.fromBytesBE (-1) [1, 0, 0, 0, 0, 0, 0, 0, 0] = { neg := true, mag := [0, 1] } := by decide
+example : BigInt.divWord [6, 7] 3 = some ([6148914691236517207, 2], [1]) := by decide
+-- -(2^64 - 1) prints as "-18446744073709551615": two chunks, the first padded to 19 digits
+example : BigInt.toDecimal BigInt.div19Word { neg := true, mag := [BigInt.B - 1] } =
+    [45, 49, 56, 52, 52, 54, 55, 52, 52, 48, 55, 51, 55, 48, 57, 53, 53, 49, 54, 49, 53] := by decide
+example : BigInt.add 4 { neg := true, mag := [0, 1] } { neg := false, mag := [1] } = { neg := true, mag := [BigInt.B - 1] } := by decide
+example : BigInt.sub 4 { neg := false, mag := [1] } { neg := false, mag := [0, 1] } = { neg := true, mag := [BigInt.B - 1] } := by decide
 
 end JV.Props.C04
